@@ -108,6 +108,7 @@ def job_batch(prop, seed, cls, cfg, run_indices, timeout_s):
         "known_seen": Counter(),
         "states": set(),
         "transitions": set(),
+        "fault_sites": set(),
     }
     per_site_kept = Counter()
     known = [e for e in load_known() if e["property"] == prop]
@@ -131,6 +132,7 @@ def job_batch(prop, seed, cls, cfg, run_indices, timeout_s):
         agg["states"].update(rec.get("states", ()))
         agg["transitions"].update(rec.get("transitions", ()))
         agg["faults"].update(rec.get("faults", ()))
+        agg["fault_sites"].update(rec.get("fault_sites", ()))
         agg["ticks"] += rec.get("ticks", 0)
         agg["pools"] += rec.get("n_pools", 0)
         if rec.get("sample") is not None and c["want_sample"]:
@@ -389,7 +391,7 @@ def run_check(prop: str, tier: str, seed: int, runs: int | None = None, workers:
     cfg = {
         "tier": tier,
         "n_classes": ncls,
-        "fault_every": getattr(mod, "FAULT_EVERY", 5),
+        "fault_every": int(os.environ.get("GBSIM_FAULT_EVERY") or getattr(mod, "FAULT_EVERY", 5)),  # env: development aid only
         "samples_per_job": 1,
         "seed": seed,
     }
@@ -446,6 +448,7 @@ def run_check(prop: str, tier: str, seed: int, runs: int | None = None, workers:
         probes, faults, site_counts = Counter(), Counter(), Counter()
         nontrivial, inter = [], []
         states_all, transitions_all = set(), set()
+        fault_sites_all = set()
         samples = []
         raw_violations = []
         walls = []
@@ -468,6 +471,7 @@ def run_check(prop: str, tier: str, seed: int, runs: int | None = None, workers:
             states_all.update(r.get("states", ()))
             transitions_all.update(r.get("transitions", ()))
             faults.update(r["faults"])
+            fault_sites_all.update(r.get("fault_sites", ()))
             site_counts.update(r["site_counts"])
             nontrivial.append(r["nontrivial_digests"])
             inter.append(r["interleavings"])
@@ -573,6 +577,9 @@ def run_check(prop: str, tier: str, seed: int, runs: int | None = None, workers:
                 "simulated_ticks": int(total["ticks"]),
                 "simulated_pools": int(total["pools"]),
                 "fault_counts_fired": dict(faults),
+                "distinct_stmt_fault_points": len(fault_sites_all),
+                "stmt_fault_point_measure": "distinct (file:function:line) of groupby_lib at which a statement-level fault (stmt_fail / stmt_interrupt) actually fired",
+                "stmt_fault_points_sample": sorted(fault_sites_all)[:: max(1, len(fault_sites_all) // 12)][:12],
                 "distinct_interleavings": n_inter,
                 "interleaving_measure": "distinct (call-site, n_tasks, depth, body execution order, delivery order, #done at each delivery) tuples over all simulated pools",
                 "states_reached": len(states_all),
@@ -693,7 +700,7 @@ def run_triage(prop, tier, seed, runs, workers, group_by=None):
     mod = prop_module(prop)
     classes, per_class, offs = plan_runs(mod, tier, runs)
     ncls = len(classes)
-    cfg = {"tier": tier, "n_classes": ncls, "fault_every": getattr(mod, "FAULT_EVERY", 5), "samples_per_job": 0, "seed": seed, "keep_per_site": 10**9}
+    cfg = {"tier": tier, "n_classes": ncls, "fault_every": int(os.environ.get("GBSIM_FAULT_EVERY") or getattr(mod, "FAULT_EVERY", 5)), "samples_per_job": 0, "seed": seed, "keep_per_site": 10**9}
     pools = Pools(workers)
     out = []
     try:
